@@ -7,7 +7,8 @@ rows = []
 for d in sorted(glob.glob('/verif/seeded/*/meta.json')):
     m = json.load(open(d))
     note = ' (see note)' if m.get('note') else ''
-    rows.append(f"| {m['name']} | {m['property']} | {', '.join(m['caught_by']) or 'none' + note} |")
+    partial = f" (of {len(m['checks_quick'])} run)" if m.get('checks_not_run') else ''
+    rows.append(f"| {m['name']} | {m['property']} | {(', '.join(m['caught_by']) or 'none' + note) + partial} |")
 table = "| seeded change | aimed at | quick checks that report it |\n|---|---|---|\n" + "\n".join(rows) + "\n"
 start = s.index("| seeded change | aimed at | quick checks that report it |")
 end = s.index("\nC14_a changes only the bid-conversion scan")
